@@ -283,6 +283,7 @@ fn too_big(img: &JxlImage, cap: u32) -> bool {
 
 fn drain_render(r: &jxl_oxide::Render, awkward: usize) {
     let fb = r.image_all_channels();
+    crate::harness::touch_samples(fb.buf());
     let _ = (fb.width(), fb.height(), fb.channels(), fb.buf().len());
     let planar = r.image_planar();
     let _ = planar.len();
@@ -356,7 +357,7 @@ fn run_op(op: &Op, state: &mut State, sc: &Scenario, stats: &mut Stats) -> &'sta
                 }
                 match img.render_frame(*k) {
                     Ok(r) => {
-                        let _ = r.image_all_channels();
+                        crate::harness::touch_samples(r.image_all_channels().buf());
                         "ok"
                     }
                     Err(_) => "err",
@@ -370,7 +371,7 @@ fn run_op(op: &Op, state: &mut State, sc: &Scenario, stats: &mut Stats) -> &'sta
                 for k in 0..img.num_loaded_keyframes() {
                     match img.render_frame(k) {
                         Ok(r) => {
-                            let _ = r.image_all_channels();
+                            crate::harness::touch_samples(r.image_all_channels().buf());
                         }
                         Err(_) => any_err = true,
                     }
@@ -383,7 +384,7 @@ fn run_op(op: &Op, state: &mut State, sc: &Scenario, stats: &mut Stats) -> &'sta
                 }
                 match img.render_loading_frame() {
                     Ok(r) => {
-                        let _ = r.image_all_channels();
+                        crate::harness::touch_samples(r.image_all_channels().buf());
                         "ok"
                     }
                     Err(_) => "err",
